@@ -1285,6 +1285,10 @@ class Executor:
                 if r is not False:
                     opts.append(r)
             return Or(*opts) if opts else False
+        if isinstance(container, (set, frozenset)) and isinstance(x, Obj):
+            # hash-based containers compare the hash first: with an identity hash only the very same object is found
+            check_hashable(x)
+            return any(y is x for y in container)
         if isinstance(container, (list, tuple, set, frozenset)):
             opts = []
             for y in container:
@@ -1425,6 +1429,32 @@ def _hashable(k):
     if isinstance(k, list):
         return tuple(k)
     return k
+
+
+def hash_kind(o):
+    """How CPython hashes this value inside a set / as a dict key: 'identity' (object identity decides membership: the default,
+    or a __hash__ that returns id(self)), 'unhashable' (__eq__ without __hash__) or 'custom'."""
+    if not isinstance(o, Obj) or o.cls is None:
+        return 'identity'
+    m = o.cls.find_method('__hash__')
+    if m is None:
+        return 'unhashable' if o.cls.find_method('__eq__') is not None else 'identity'
+    body = [st for st in m.node.body if not (isinstance(st, ast.Expr) and isinstance(st.value, ast.Constant))]
+    if len(body) == 1 and isinstance(body[0], ast.Return) and body[0].value is not None \
+            and ast.unparse(body[0].value).replace(' ', '') in ('id(self)', 'object.__hash__(self)', 'super().__hash__()'):
+        return 'identity'
+    return 'custom'
+
+
+def check_hashable(o):
+    """The engine keeps objects in Python sets / dict keys by identity: only sound for identity-hashed classes."""
+    for x in (o if isinstance(o, tuple) else (o,)):
+        k = hash_kind(x)
+        if k == 'unhashable':
+            raise PyRaise('TypeError', 'unhashable type')
+        if k == 'custom':
+            raise Unsupported('objects of %s in a set / as dict keys: user-defined __hash__ is not modelled' % x.cls.name)
+    return o
 
 
 def has_sym(k):
